@@ -37,10 +37,13 @@ def _pick(rng, seq):
 def gen_wave(rng, simple=False):
     name = _pick(rng, WAVES_SIMPLE if simple else WAVES)
     r = rng.random()
-    if r < 0.6:
+    if r < 0.55:
         return {"kind": "name", "name": name}
-    if r < 0.7:
+    if r < 0.63:
         return {"kind": "pywt", "name": name}
+    if r < 0.7:
+        # a user-defined pywt.Wavelet: arbitrary label, explicit filter bank
+        return {"kind": "pywt_custom", "name": name, "label": _pick(rng, ["custom", "w", "db2"])}
     if r < 0.9:
         return {"kind": "tuple2", "name": name}
     return {"kind": "tuple4", "name": name, "name2": _pick(rng, WAVES_SIMPLE)}
@@ -138,6 +141,8 @@ def _wave_arg0(w, inverse):
     wv = pywt.Wavelet(w["name"])
     if kind == "pywt":
         return wv
+    if kind == "pywt_custom":
+        return pywt.Wavelet(w["label"], filter_bank=wv.filter_bank)
     lo, hi = (wv.rec_lo, wv.rec_hi) if inverse else (wv.dec_lo, wv.dec_hi)
     if kind == "tuple2":
         return (np.array(lo), np.array(hi))
@@ -213,7 +218,10 @@ def gen_input_spec(family, p, rng, dtype=None, small=False):
         dtype = "float32" if rng.random() < 0.6 else "float64"
     layout = "contig" if rng.random() < 0.6 else _pick(rng, LAYOUTS)
     return {"shape": shape, "dtype": dtype, "layout": layout,
-            "seed": rng.randrange(1 << 30), "scale": _pick(rng, [1.0, 1.0, 1e-3, 50.0])}
+            "seed": rng.randrange(1 << 30),
+            # 1e-39 / 1e-309: values in the denormal range of the dtype
+            "scale": _pick(rng, [1.0, 1.0, 1.0, 1e-3, 50.0, 1.0, 1e-3, 50.0, 1.0,
+                                 1e-39 if dtype == "float32" else 1e-309])}
 
 
 def canary_spec(family, dtype):
